@@ -238,10 +238,16 @@ func (rpt *Report) selectOutputUnit(g *graph.Graph) {
 func (rpt *Report) newGraph(nodes graph.NodeSet) *graph.Graph {
 	o := rpt.options
 
-	// Clean up file paths using heuristics.
+	// Clean up file paths using heuristics. This is done only once per
+	// report: the graph is rebuilt from the same profile while it is trimmed,
+	// and trimming an already trimmed path again may strip more of it (the
+	// entries of the rebuilt graph would no longer match the kept nodes).
 	prof := rpt.prof
-	for _, f := range prof.Function {
-		f.Filename = trimPath(f.Filename, o.TrimPath, o.SourcePath)
+	if !rpt.pathsTrimmed {
+		for _, f := range prof.Function {
+			f.Filename = trimPath(f.Filename, o.TrimPath, o.SourcePath)
+		}
+		rpt.pathsTrimmed = true
 	}
 	// Removes all numeric tags except for the bytes tag prior
 	// to making graph.
@@ -1284,8 +1290,8 @@ func New(prof *profile.Profile, o *Options) *Report {
 		}
 		return measurement.ScaledLabel(v, o.SampleUnit, o.OutputUnit)
 	}
-	return &Report{prof, computeTotal(prof, o.SampleValue, o.SampleMeanDivisor),
-		o, format}
+	return &Report{prof: prof, total: computeTotal(prof, o.SampleValue, o.SampleMeanDivisor),
+		options: o, formatValue: format}
 }
 
 // NewDefault builds a new report indexing the last sample value
@@ -1342,6 +1348,10 @@ type Report struct {
 	total       int64
 	options     *Options
 	formatValue func(int64) string
+
+	// pathsTrimmed records that the file names of prof have been cleaned up
+	// with trimPath (see newGraph).
+	pathsTrimmed bool
 }
 
 // Total returns the total number of samples in a report.
